@@ -49,7 +49,10 @@ TLeave ==
 \* observations
 TProbe == \* the group's public endpoint accepts connections iff the specification says it is open
   /\ Ev("drv.group.probe") /\ UNCHANGED vars
-  /\ Flag(E.open = (\E o \in Objs : open[o]), "endpoint reachability differs from the specification")
+  /\ bad' = bad
+     \cup (IF E.open = (\E o \in Objs : open[o]) THEN {} ELSE {<<"endpoint reachability differs from the specification", l>>})
+     \cup (IF "ports_held" \notin DOMAIN E \/ E.ports_held = Cardinality({o \in Objs : open[o]}) THEN {}
+          ELSE {<<"port accounting differs from the open groups (a closed group still holds its port, or an open one holds none)", l>>})
 TServed == \* a connection / request was handed to a member: it must be a current member of the served object
   /\ Ev("drv.group.served") /\ UNCHANGED vars
   /\ Flag(IF E.member = "none" THEN \A o \in Objs : ~(open[o] /\ ~chClosed[o] /\ table = o /\ mem[o] # {})
